@@ -388,10 +388,13 @@ func OP_NEW_MAP_Handler(v *VM) {
 	v.pc += w
 
 	m := val.Map(ty.(*types.Type).Map()).Map()
+	kvs := make([]*val.Val, sz*2)
+	for i := 0; i < sz*2; i++ {
+		kvs[sz*2-1-i] = v.Pop()
+	}
+	// 保持字面量声明的顺序, 重复的 key 后者覆盖前者
 	for i := 0; i < sz; i++ {
-		vl := v.Pop()
-		key := v.Pop()
-		m.V[key.Key()] = vl
+		m.V[kvs[i*2].Key()] = kvs[i*2+1]
 	}
 	v.Push(m.Vl())
 }
